@@ -326,6 +326,7 @@ func runInstance(prog *sx.Program, h Harness, params []int64, tier string, known
 	for _, p := range h.InitPkgs {
 		initPkgs = append(initPkgs, sx.ModPath+"/pkg/"+p)
 	}
+	initPkgs = append(initPkgs, h.InitAbs...)
 	cfg := sx.Config{InitPkgs: initPkgs, StubPkgs: stubPkgs, MaxUnwind: h.Unwind, LoopBounds: h.LoopBounds}
 	x := sx.NewExec(prog.Prog, cfg)
 	x.InstallRedirects(prog)
